@@ -4,7 +4,8 @@ CONSTANTS Radii <- RadiiA
   Ths <- ThsAll
   Dls <- DlsAll
   Centers <- CentersB
-  SmallH <- SmallA
+  SmallH <- SmallB
+  SmallR <- SmallRA
 INVARIANT F65Unique
 INVARIANT F65Self
 INVARIANT LargeIffOver180
